@@ -33,7 +33,7 @@ pub fn def() -> PropDef {
 }
 
 fn params(t: Tier) -> (usize, usize, usize) {
-    t.pick((4, 1, 2), (6, 1, 3))
+    t.pick((4, 1, 2), (5, 1, 3))
 }
 
 pub fn check_packet(x: &[u8]) -> Result<String, (String, String)> {
@@ -150,7 +150,7 @@ fn run(ctx: &mut Ctx, rep: &mut Report) {
     let names: Vec<Name> = std_names()[..nn].to_vec();
     let menu = rec_menu(&names, level);
     let opts = opt_variants();
-    let qnames = vec![names[2].clone(), names[0].clone()];
+    let qnames = if k >= 3 { vec![names[2].clone()] } else { vec![names[2].clone(), names[0].clone()] };
     let shard = ctx.shard as u64;
     let nsh = ctx.nshards as u64;
     let ctxp: *mut Ctx = ctx;
